@@ -259,6 +259,13 @@ func (server *Server) serve(l net.Listener) error {
 	for {
 		conn, err := l.Accept()
 		if err != nil {
+			// Only a closed listener ends the loop: a failure to accept one connection
+			// (e.g. the process is out of file descriptors) must not end the service.
+			if !errors.Is(err, net.ErrClosed) {
+				log.Error(err)
+				time.Sleep(acceptRetryInterval)
+				continue
+			}
 			verifPoint("serve.exit")
 			return err
 		}
@@ -278,6 +285,13 @@ func (server *Server) tlsServe(l net.Listener, tlsConfig *tls.Config) error {
 	for {
 		conn, err := l.Accept()
 		if err != nil {
+			// Only a closed listener ends the loop: a failure to accept one connection
+			// (e.g. the process is out of file descriptors) must not end the service.
+			if !errors.Is(err, net.ErrClosed) {
+				log.Error(err)
+				time.Sleep(acceptRetryInterval)
+				continue
+			}
 			verifPoint("tlsServe.exit")
 			return err
 		}
